@@ -57,28 +57,6 @@ Qed.
 (** ... and, when they do not, leave the deleted node in the label index (step level) *)
 Definition g_one_node : lpg := sh (grun (repeat 0%nat 6) (ginit lpg0 [[GCreateNode [1]]])).
 
-Definition ops_add_label (p : list gop) : list Z :=
-  flat_map (fun op => match op with GAddLabel n _ | GRemoveLabel n _ => [n] | _ => [] end) p.
-Definition ops_delete_node (p : list gop) : list Z :=
-  flat_map (fun op => match op with GDeleteNode n => [n] | _ => [] end) p.
-Definition ops_add_pairs (p : list gop) : list (Z * Z) :=
-  flat_map (fun op => match op with GAddLabel n l => [(n, l)] | _ => [] end) p.
-Definition ops_rem_pairs (p : list gop) : list (Z * Z) :=
-  flat_map (fun op => match op with GRemoveLabel n l => [(n, l)] | _ => [] end) p.
-(** K (torn label index): add_label/remove_label and delete_node of the SAME node by different
-    threads, or add_label and remove_label of the SAME (node, label) by different threads *)
-Definition k_label (progs : list (list gop)) : bool :=
-  let n := length progs in
-  existsb (fun i => existsb (fun j => negb (Nat.eqb i j) &&
-     (existsb (fun x => zmem x (ops_delete_node (nth j progs []))) (ops_add_label (nth i progs [])) ||
-      existsb (fun x => pmem x (ops_rem_pairs (nth j progs []))) (ops_add_pairs (nth i progs [])))) (seq 0 n)) (seq 0 n).
-(** K (deadlock): add_label/remove_label and delete_node (of any nodes) by different threads *)
-Definition k_label_deadlock (progs : list (list gop)) : bool :=
-  let n := length progs in
-  existsb (fun i => existsb (fun j => negb (Nat.eqb i j) &&
-     negb (match ops_add_label (nth i progs []) with [] => true | _ => false end) &&
-     negb (match ops_delete_node (nth j progs []) with [] => true | _ => false end)) (seq 0 n)) (seq 0 n).
-
 Lemma label_torn_refuted_l :
   exists progs sched, progs = [[GAddLabel 0 2]; [GDeleteNode 0]] /\ sched = [0; 1; 1; 1; 0; 0; 0]%nat /\
     k_label progs = true /\
@@ -94,12 +72,6 @@ Lemma label_addrem_torn_refuted_l :
     zmem 2 (labels_of (sh c) 0) = false /\ zmem 0 (by_label (sh c) 2) = true.
 Proof. eexists; eexists. vm_compute. repeat split; reflexivity. Qed.
 
-(** two set_node_property calls on the same node leave two index entries *)
-Definition k_prop (progs : list (list pop)) : bool :=
-  let n := length progs in
-  let nodes p := map (fun op => match op with PSetProp x _ => x end) p in
-  existsb (fun i => existsb (fun j => negb (Nat.eqb i j) &&
-     existsb (fun x => zmem x (nodes (nth j progs []))) (nodes (nth i progs []))) (seq 0 n)) (seq 0 n).
 Lemma prop_index_torn_refuted_l :
   exists progs sched, progs = [[PSetProp 0 1]; [PSetProp 0 2]] /\ sched = [0; 1; 0; 0; 0; 1; 1; 1]%nat /\
     k_prop progs = true /\
@@ -110,8 +82,6 @@ Proof. eexists; eexists. vm_compute. repeat split; reflexivity. Qed.
 
 (** concurrent rotations make the active file go back to a lower sequence number: a record
     appended later is recovered before one appended earlier by the same thread *)
-Definition k_wal_rotation (progs : list (list rop)) : bool :=
-  Nat.leb 2 (length (filter (fun p => match p with [] => false | _ => true end) progs)).
 Lemma wal_rotation_order_refuted_l :
   exists progs sched, progs = [[RLog 1]; [RLog 11; RLog 12; RLog 13]] /\
     sched = [0; 0; 0; 1; 1; 1; 1; 1; 1; 1; 1; 0; 1; 1; 1; 1]%nat /\ k_wal_rotation progs = true /\
